@@ -31,9 +31,21 @@ pub fn ops(args: &[&str]) -> String {
         Some(c) => c,
         None => return "BADCASE".into(),
     };
-    let mut b = match parse_bundle(&mut t) {
-        Some(b) => b,
-        None => return "SKIP".into(),
+    let mut b = if t.peek() == Some("X") {
+        t.next();
+        let bytes = match t.bytes() {
+            Some(b) => b,
+            None => return "BADCASE".into(),
+        };
+        match Bundle::try_from(bytes.as_slice()) {
+            Ok(b) => b,
+            Err(_) => return "DECERR".into(),
+        }
+    } else {
+        match parse_bundle(&mut t) {
+            Some(b) => b,
+            None => return "SKIP".into(),
+        }
     };
     bp7::verif_hooks::set_thread_clock_ms(Some(clock));
     let mut out = String::from("OK");
@@ -80,6 +92,21 @@ pub fn ops(args: &[&str]) -> String {
                     None => return "BADCASE".into(),
                 };
                 show_bool(b.update_extensions(e, n)).into()
+            }
+            Some("Q") => {
+                let crc = b.clone().crc_valid();
+                let prev = match b.previous_node() {
+                    Some(e) => show_eid(e),
+                    None => "-".into(),
+                };
+                format!(
+                    "CRC {} ADM {} PREV {} LTX {} TS {}",
+                    show_bool(crc),
+                    show_bool(b.is_administrative_record()),
+                    prev,
+                    show_bool(b.primary.is_lifetime_exceeded()),
+                    show_bytes(b.primary.creation_timestamp.to_string().as_bytes())
+                )
             }
             Some("SORT") => {
                 b.sort_canonicals();
